@@ -331,7 +331,14 @@ func main() {
 			if _, ok := s.Get(-1); ok {
 				k.Violate("get-mismatch", "negative", "", nil)
 			}
-			for _, absent := range []string{"nope", "a.", "k", "\x00", "zzz"} {
+			absents := []string{"", "nope", "a.", "k", "\x00", "zzz", "\xff\xff"}
+			for _, key := range keys { // neighbours of the keys that are there: a prefix, an extension, the next string
+				absents = append(absents, key+"\x00", key+"0")
+				if len(key) > 0 {
+					absents = append(absents, key[:len(key)-1])
+				}
+			}
+			for _, absent := range absents {
 				if _, in := m[absent]; in {
 					continue
 				}
